@@ -120,7 +120,7 @@ pub open spec fn op_shifts_right(op: Operation) -> bool {
 /// documented operand precondition ("undefined otherwise") of the unchecked u32 arithmetic ops
 pub open spec fn op_pre(op: Operation, s: Seq<Felt>) -> bool {
     match op {
-        Operation::U32add | Operation::U32sub | Operation::U32mul | Operation::U32div => pre_u32_2(s),
+        Operation::U32add | Operation::U32sub | Operation::U32mul => pre_u32_2(s),
         Operation::U32add3 | Operation::U32madd => pre_u32_3(s),
         _ => true,
     }
